@@ -154,7 +154,35 @@ fn test(c: &Case, st: &mut Stats) -> TestResult {
             // the raw form of the same attribute writes the same bytes
             let raw = typed.as_write().to_raw().into_owned();
             check_attr(&raw, &format!("{:?} via RawAttribute", kind), ty, &value)?;
+            // a builder holding just this attribute: borrowed, cloned and owned forms serialise alike
+            if ![0x0008u16, 0x001C, 0x8028].contains(&ty) && value.len() <= 60_000 {
+                let mt = stun_types::message::MessageType::from_class_method(stun_types::message::MessageClass::Success, 1);
+                let mut b = stun_types::message::Message::builder(mt, stun_types::message::TransactionId::from(*tid));
+                if b.add_attribute(typed.as_write()).is_ok() {
+                    let built = guard(|| b.build()).map_err(|p| Fail::new("c12-panic", format!("build panicked: {}", p)))?;
+                    let cloned = b.clone().build();
+                    let owned = guard(|| b.clone().into_owned().build()).map_err(|p| Fail::new("c12-panic", format!("into_owned panicked: {}", p)))?;
+                    let mut dest = vec![0xA5u8; built.len() + 5];
+                    let n = b.write_into(&mut dest).map_err(|e| Fail::new("c12-builder-write", format!("write_into failed: {:?}", e)))?;
+                    ensure!(
+                        built == cloned && built == owned && n == built.len() && dest[..n.min(dest.len())] == built[..] && dest[n.min(dest.len())..].iter().all(|x| *x == 0xA5),
+                        "c12-owned-clone",
+                        "a builder holding one {:?} attribute (value of {} bytes): build() {} bytes, clone().build() {} bytes, into_owned().build() {} bytes, write_into() {} bytes; first difference build/owned at {}, build/write_into at {}",
+                        kind,
+                        value.len(),
+                        built.len(),
+                        cloned.len(),
+                        owned.len(),
+                        n,
+                        first_diff(&built, &owned),
+                        first_diff(&built, &dest[..n.min(dest.len())])
+                    );
+                }
+            }
             st.class(&format!("attr {:?}", kind));
+            if value.len() > 763 {
+                st.class("constructible value beyond the decoder's limit");
+            }
             if value.len() % 4 != 0 {
                 st.class("value needs padding");
                 st.nontrivial(digest(&(kind, &value)));
@@ -327,6 +355,28 @@ pub fn run(ctx: &Ctx) -> EvidenceMeta {
         || {
             ((0usize..19).prop_map(|i| ALL_KINDS[i]), gen::tid_strategy())
                 .prop_flat_map(|(kind, tid)| gen::fields_strategy(kind).prop_map(move |fields| Case::Attr { kind, fields, tid }))
+        },
+        test,
+    );
+    // whatever the constructors accept, also beyond the limits the decoders enforce
+    ctx.proptest(
+        "attr-any-constructible",
+        ctx.n(3_000, 100_000),
+        || {
+            let text_kind = prop_oneof![Just(Kind::Username), Just(Kind::Realm), Just(Kind::Nonce), Just(Kind::Software), Just(Kind::AlternateDomain)];
+            prop_oneof![
+                (text_kind, gen::long_text(), gen::tid_strategy()).prop_map(|(kind, t, tid)| Case::Attr { kind, fields: Fields::Text(t), tid }),
+                (300u16..700, gen::long_text(), gen::tid_strategy()).prop_map(|(code, reason, tid)| Case::Attr {
+                    kind: Kind::ErrorCode,
+                    fields: Fields::ErrorCode { code, reason },
+                    tid,
+                }),
+                (proptest::collection::vec(any::<u16>(), 0..600), gen::tid_strategy()).prop_map(|(l, tid)| Case::Attr {
+                    kind: Kind::UnknownAttributes,
+                    fields: Fields::Types(l),
+                    tid,
+                }),
+            ]
         },
         test,
     );
